@@ -192,6 +192,23 @@ Proof. exact (conj Tie.HeadTie.fv_byte_tie (conj Tie.HeadTie.target_first_tie Ti
 Theorem c01_try_read_translation_complete : Generated.SourceParams.src_problems_try_read = 0%nat.
 Proof. exact Tie.HeadTie.try_read_translated. Qed.
 
+(* C01.src-loop  read_http_head (src/head.rs) as TRANSLATED statement by statement ON THIS RUN (the try_read match, the
+   full-buffer test with its error, the read with its two end-of-stream errors and buf.wrote), interpreted as a loop
+   with one unit of fuel per read, is the reader the theorems above are about -- for every buffer capacity, buffer
+   state, stream and delivery schedule; the delimiter read_head_bytes searches for and the number of bytes it
+   consumes beyond the head are the model's *)
+Theorem c01_read_loop_is_the_source :
+  forall url_parse cap fuel b s,
+    Tie.HeadTie.eval_read_http_head url_parse cap Generated.SourceParams.src_read_http_head fuel b s
+    = Model.Head.read_head url_parse cap fuel b s.
+Proof. exact Tie.HeadTie.read_http_head_tie. Qed.
+Theorem c01_head_delimiter_is_the_source :
+  Generated.SourceParams.src_head_delim = Model.Head.crlf2 /\
+  Generated.SourceParams.src_head_delim_consumed = N.of_nat (length Model.Head.crlf2).
+Proof. exact Tie.HeadTie.head_delim_tie. Qed.
+Theorem c01_read_loop_translation_complete : Generated.SourceParams.src_problems_read_head = 0%nat.
+Proof. exact Tie.HeadTie.read_head_translated. Qed.
+
 Print Assumptions c01_try_read_never_panics.
 Print Assumptions c01_read_head_spec.
 Print Assumptions c01_read_head_total.
@@ -213,3 +230,6 @@ Print Assumptions c01_oracle_try_sound.
 Print Assumptions c01_try_read_is_the_source.
 Print Assumptions c01_line_parser_literals_are_the_source.
 Print Assumptions c01_try_read_translation_complete.
+Print Assumptions c01_read_loop_is_the_source.
+Print Assumptions c01_head_delimiter_is_the_source.
+Print Assumptions c01_read_loop_translation_complete.
